@@ -33,7 +33,7 @@ COMPONENTS = {
 ASSUMPTIONS = ["the reference interpreter assembles every probe program with a fresh Assembler; it is long-lived per "
                "worker, so process-global residue is detected by difference of histories, not by absolute freshness"]
 PROBES = ["aborted_parse", "aborted_pass1", "aborted_pass2", "object_reused", "forward_ref", "backward_ref", "cross_page_rejected",
-          "sections", "org", "bss", "label_on_directive", "org_by_label"]
+          "sections", "org", "bss", "label_on_directive", "org_by_label", "custom_section_rejected"]
 
 NOSYM = ["NOP", "RET", "RETF", "SC", "RC", "HALT", "SWAP A", "MV A, 0x{b}", "MV BA, 0x{w}", "MV X, 0x{l}", "MV Y, 0x{l}",
          "ADD A, 0x{b}", "SUB A, 0x{b}", "AND A, 0x{b}", "OR A, 0x{b}", "XOR A, 0x{b}", "CMP A, 0x{b}", "PUSHU A", "POPU A",
@@ -194,6 +194,16 @@ def _gen_program(r: Rng, good: bool, small_ok: bool = True) -> Dict[str, Any]:
         stmts.append({"text": "NOP", "kind": "ins", "label": "L6"})
         stmts.append({"text": f".ORG 0x{page + rp.choice([0xFFFD, 0xFFFD, 0xFFFE, 0xFFFF]):X}", "kind": "org"})
         stmts.append({"text": rp.choice(NEAR) + "L6", "kind": "ins"})
+    rcs = r.child("customsec")
+    custom_section = False
+    if good and rcs.chance(1, 8):
+        # a section with a name of the user's own (the grammar takes any name): either the assembler turns it down, or
+        # what it lays out there obeys the same laws as everywhere else
+        custom_section = True
+        stmts.append({"text": "SECTION " + rcs.choice(["rodata", "tables", "vectors"]), "kind": "section"})
+        stmts.append({"text": _fill(rcs.choice(["defb 0x{b}", "defw 0x{w}", "NOP"]), rcs), "kind": "data", "label": "L9"})
+        stmts.append({"text": rcs.choice(["defl L9", "MV X, L9", "JPF L9"]), "kind": "ins"})
+        cur_sec = "custom"
     ro = r.child("symorg")
     if good and cur_sec != "bss" and ro.chance(1, 6):
         # an origin given by a label that is already defined (the grammar's `.ORG expression` takes a name): a table
@@ -236,7 +246,7 @@ def _gen_program(r: Rng, good: bool, small_ok: bool = True) -> Dict[str, Any]:
             st["text"] = st["text"].replace("L0", alias)
             if st.get("label") == "L0":
                 st["label"] = alias
-    return {"stmts": stmts, "good": good, "fault": fault}
+    return {"stmts": stmts, "good": good, "fault": fault, "custom_section": custom_section}
 
 
 def _source(prog: Dict[str, Any]) -> str:
@@ -287,6 +297,53 @@ def _assemble(asm, src: str) -> Dict[str, Any]:
 
 
 def execute(scn: Dict[str, Any]) -> Dict[str, Any]:
+    """Every scenario runs in a forked child of the worker, which itself never assembles anything: whatever a call leaves
+    behind in process-wide state (operand templates, caches keyed by source text) is then part of *this* scenario's
+    history only, and a replay in a fresh process sees exactly what the worker saw.  The reference interpreter is asked
+    by the parent afterwards."""
+    import json as _json
+    import os as _os
+    rfd, wfd = _os.pipe()
+    pid = _os.fork()
+    if pid == 0:
+        code = 0
+        try:
+            _os.close(rfd)
+            try:
+                out = _execute_here(scn)
+                payload = _json.dumps({"ok": out}).encode()
+            except BaseException as e:      # reported to the parent, which raises it as a harness error
+                payload = _json.dumps({"exc": f"{type(e).__name__}: {e}"[:500]}).encode()
+            with _os.fdopen(wfd, "wb") as w:
+                w.write(payload)
+        except BaseException:
+            code = 1
+        finally:
+            _os._exit(code)
+    _os.close(wfd)
+    chunks = []
+    with _os.fdopen(rfd, "rb") as rd:
+        while True:
+            b = rd.read(1 << 16)
+            if not b:
+                break
+            chunks.append(b)
+    _os.waitpid(pid, 0)
+    from ..rshost import HarnessError
+    try:
+        msg = _json.loads(b"".join(chunks))
+    except Exception:
+        raise HarnessError("C10 scenario child died without an answer")
+    if "exc" in msg:
+        raise HarnessError("C10 scenario child: " + msg["exc"])
+    out = msg["ok"]
+    for call, rec in zip(scn["calls"], out["calls"]):
+        if rec["res"]["ok"]:
+            rec["ref"] = ref().assemble(call["src"], scn.get("bases"))
+    return out
+
+
+def _execute_here(scn: Dict[str, Any]) -> Dict[str, Any]:
     from sc62015.pysc62015.sc_asm import Assembler
     bases = scn.get("bases")
 
@@ -304,7 +361,6 @@ def execute(scn: Dict[str, Any]) -> Dict[str, Any]:
         if res["ok"]:
             rec["again"] = _assemble(objs[call["obj"]], call["src"])
             rec["fresh"] = _assemble(new_asm(), call["src"])
-            rec["ref"] = ref().assemble(call["src"], bases)
             rec["model"] = _model(call["prog"], res.get("symbols") or {}, bases)
         out.append(rec)
     return {"calls": out}
@@ -347,7 +403,7 @@ def _model(prog: Dict[str, Any], symbols: Dict[str, int], bases: Optional[Dict[s
         text = s["text"]
         probe_text = text
         probe_text = probe_text.replace(SMALL_LABEL, "0x10")
-        for lb in ("L0", "L1", "L2", "L3", "L4", "L6", "L7", "L8", "ISR", "IMR", "KOL", "UCR", "LCC"):
+        for lb in ("L0", "L1", "L2", "L3", "L4", "L6", "L7", "L8", "L9", "ISR", "IMR", "KOL", "UCR", "LCC"):
             probe_text = probe_text.replace(lb, f"0x{addr & 0xF0000 | 0x10:X}")
         try:
             # a page-local transfer is encoded the same anywhere on its page: its reference encoding is taken in the
@@ -481,7 +537,9 @@ def check(scn: Dict[str, Any], hist: Dict[str, Any]) -> List[Dict[str, Any]]:
                 probe("aborted_pass1")
             elif prog["fault"]:
                 probe("aborted_pass2")
-            if prog["good"]:
+            if prog["good"] and prog.get("custom_section") and "section" in res["msg"].lower():
+                probe("custom_section_rejected")      # turned down as a whole: nothing was laid out
+            elif prog["good"]:
                 # a program meant to be good was rejected: only acceptable for a cross-page near transfer
                 m = _model(prog, {}, scn.get("bases"))
                 if m.get("cross_page"):
@@ -530,8 +588,8 @@ def check(scn: Dict[str, Any], hist: Dict[str, Any]) -> List[Dict[str, Any]]:
                   directive=text.split()[0].lower())
                 break
         order = [s.get("label") for s in prog["stmts"]]
-        if m["mem"] != mine:
-            a = dict(m["mem"])
+        if [tuple(x) for x in m["mem"]] != [tuple(x) for x in mine]:
+            a = dict((x[0], x[1]) for x in m["mem"])
             b = dict(mine)
             diff = sorted(k for k in set(a) | set(b) if a.get(k) != b.get(k))
             V("placement", i, f"emitted bytes differ from the composition of standalone statements at {len(diff)} addresses, "
